@@ -43,7 +43,7 @@ extern "C" {
 }
 
 #define RUNAWAY 20000
-#define CHILD_TIMEOUT 20
+#define CHILD_TIMEOUT 10
 #define MAXLOG (1 << 20)
 
 static volatile long g_ncreated, g_nreaped;
